@@ -27,4 +27,7 @@ theorem toR_liftR (r : R) : toR (liftR r) = r := by cases r <;> rfl
 theorem toR_notM_liftR (r : R) : toR (pyNot (liftR r)) = r.map (!·) := by cases r <;> rfl
 
 
+theorem cache_ne : ("cache" == "storage") = false := by decide
+theorem storage_eq : ("storage" == "storage") = true := by decide
+
 end Vakt.GenEquiv
